@@ -44,6 +44,10 @@ type Step struct {
 	NestT  int `json:"nest_t,omitempty"`
 	// sub: publish an event of type StoreNestT from inside the store's LoadOffset call of this SubscribeWithReplay
 	StoreNestT int `json:"store_nest_t,omitempty"`
+	// sub: when SubscribeWithReplay returns an error (an injected store
+	// failure), the application calls it again on the same bus, as it would
+	// after a transient failure
+	Retry bool `json:"retry,omitempty"`
 }
 
 type RunSpec struct {
@@ -102,6 +106,7 @@ type exec struct {
 	subOpt          eventbus.SubscriptionStore // given to WithSubscriptionStore when SubVia is option/both
 	decoy           *eventbus.MemoryStore
 	anyCrashOrFault bool
+	retried         bool // a failed SubscribeWithReplay was called again on the same bus
 }
 
 func (x *exec) open() error {
@@ -356,7 +361,12 @@ func (x *exec) run(ri int, r RunSpec, final bool) {
 			case "sub":
 				cp := st
 				curStep = &cp
-				_ = x.subscribe(ctx, bus, ri, cp)
+				err := x.subscribe(ctx, bus, ri, cp)
+				if err != nil && cp.Retry && !x.base.Dead() {
+					x.retried = true
+					cp.NestAt, cp.StoreNestT = 0, 0
+					_ = x.subscribe(ctx, bus, ri, cp)
+				}
 				curStep = nil
 			case "pub":
 				x.publish(bus, st.T)
@@ -585,6 +595,9 @@ func run(c *Case) *vkit.Outcome {
 		o.Class("publish_during_subscribe_with_replay")
 	}
 	o.Class("store_" + c.Store)
+	if x.retried {
+		o.Class("failed_SubscribeWithReplay_retried_on_the_same_bus")
+	}
 	if c.SubVia != "" {
 		o.Class("positions_through_WithSubscriptionStore_" + c.SubVia)
 	}
